@@ -1,6 +1,7 @@
 package main
 
 import (
+	"go/token"
 	"go/ast"
 	"strings"
 
@@ -77,5 +78,92 @@ func checkParserMinLength(p *Program, r *Result, rule string) {
 	}
 	if n == 0 {
 		r.held(rule, "mcap.Parse*", "fixed-position reads", "", "no parser reads its record buffer at a fixed position outside the bounds-checked helpers")
+	}
+}
+
+// C10.d (second form): a loop that eats a fixed-width entry per iteration from a byte slice (x = x[k:] round the loop, k a
+// constant) must know that a whole entry is left: a test len(x) >= k (or > k-1, != 0 after a divisibility test) has to
+// guard the iteration. `for len(x) > 0 { ... x = x[16:] }` over a slice whose length comes from the input panics on the last,
+// partial entry - one bounds check for the whole array is not one per entry unless the length is a multiple of the width.
+func checkFixedWidthLoops(p *Program, r *Result, rule string, fns []*ssa.Function) {
+	for _, fn := range fns {
+		for _, b := range fn.Blocks {
+			for _, in := range b.Instrs {
+				phi, ok := in.(*ssa.Phi)
+				if !ok {
+					break
+				}
+				if !isByteSlice(phi.Type()) {
+					continue
+				}
+				// a back edge carrying phi[k:]
+				var k int64
+				for i, e := range phi.Edges {
+					if !b.Dominates(b.Preds[i]) {
+						continue
+					}
+					if sl, ok := e.(*ssa.Slice); ok && sl.X == ssa.Value(phi) && sl.High == nil {
+						if c, ok := sl.Low.(*ssa.Const); ok && c.Value != nil && c.Int64() > 1 {
+							k = c.Int64()
+						}
+					}
+				}
+				if k == 0 {
+					continue
+				}
+				construct := "a whole entry of " + itoa(int(k)) + " bytes is left in " + valueLabel(phi) + " when the loop body runs"
+				// the guard(s) on len(phi) that dominate the re-slice
+				ok = false
+				modChecked := false
+				for _, in2 := range instrsOf(fn) {
+					bo, isB := in2.(*ssa.BinOp)
+					if !isB {
+						continue
+					}
+					// len(x) % k == 0 tested anywhere on the entry value of the phi
+					if bo.Op == token.REM {
+						if c, isC := bo.Y.(*ssa.Const); isC && c.Value != nil && c.Int64() == k {
+							modChecked = true
+						}
+					}
+				}
+				if iff, isIf := b.Instrs[len(b.Instrs)-1].(*ssa.If); isIf {
+					if c, isB := iff.Cond.(*ssa.BinOp); isB {
+						isLen := func(v ssa.Value) bool {
+							call, ok := stripConv(v).(*ssa.Call)
+							if !ok {
+								return false
+							}
+							bi, ok := call.Call.Value.(*ssa.Builtin)
+							return ok && bi.Name() == "len" && call.Call.Args[0] == ssa.Value(phi)
+						}
+						kc := func(v ssa.Value) (int64, bool) {
+							c, ok := v.(*ssa.Const)
+							if !ok || c.Value == nil {
+								return 0, false
+							}
+							return c.Int64(), true
+						}
+						// the in-loop side is Succs[0] for `for cond {}`
+						switch {
+						case isLen(c.X):
+							if n, has := kc(c.Y); has {
+								ok = (c.Op == token.GEQ && n >= k) || (c.Op == token.GTR && n >= k-1) || (modChecked && ((c.Op == token.GTR && n >= 0) || (c.Op == token.NEQ && n == 0)))
+							}
+						case isLen(c.Y):
+							if n, has := kc(c.X); has {
+								ok = (c.Op == token.LEQ && n >= k) || (c.Op == token.LSS && n >= k-1) || (modChecked && ((c.Op == token.LSS && n >= 0) || (c.Op == token.NEQ && n == 0)))
+							}
+						}
+					}
+				}
+				if ok {
+					r.held(rule, funcName(fn), construct, p.pos(phi.Pos()), "the loop condition guarantees the entry width (or the length was tested to be a multiple of it)")
+				} else {
+					r.violated(rule, funcName(fn), construct, p.pos(phi.Pos()),
+						"the loop takes "+itoa(int(k))+" bytes per iteration but only tests that the slice is not empty: a length that is not a multiple of the entry width makes the last iteration read or slice past the end (panic)")
+				}
+			}
+		}
 	}
 }
